@@ -96,6 +96,8 @@ package container
 //@   requires r != nil
 //@   ensures [C09] capped: result1 == nil ==> 1 <= len(result0) && len(result0) <= 33554432
 //@   ensures [C18] eof: result1 == nil ==> result0 != nil
+//@   ensures [C18] nofault: result1 == nil ==> failed(box(r)) == old(failed(box(r)))
+//@   assigns r, rdState(box(r)), delivered(box(r)), failed(box(r))
 //@ func ldWrite
 //@   requires w != nil
 //@   ensures [C18] fault: result == nil ==> wfailed(w) == old(wfailed(w))
@@ -107,3 +109,5 @@ package container
 //@ func readBlock
 //@   requires r != nil
 //@   ensures [C17] integrity: result1 == nil ==> (exists p cid.Prefix :: result0.c == cidOfData(p, bytes(result0.data)))
+//@   ensures [C18] nofault: result1 == nil ==> failed(box(r)) == old(failed(box(r)))
+//@   assigns r, rdState(box(r)), delivered(box(r)), failed(box(r))
